@@ -13,6 +13,7 @@ input).
 -/
 import Uniflow.Generated.Ops
 import Uniflow.Model.Store
+import Uniflow.Props.C12Tie
 
 open Uniflow.Value Uniflow.Store Uniflow.Generated.Ops
 
@@ -102,3 +103,8 @@ theorem C10.match_clauses_nonvacuous :
     (⟨"matchField", [opGte], "fail-if-compare-lt-0"⟩ : Row) ∈ rows ∧
     C10.clauseFails "fail-if-compare-lt-0" (equal (.int .w64 3) (.int .w64 3)) (cmp (.int .w64 3) (.int .w64 3)) = some false := by
   decide
+
+/-! ## `Find`'s window and `patch` (facts of Generated/StoreFacts, proved in Props/C12Tie.lean) -/
+theorem C10.find_facts : type_of% C12.find_facts := C12.find_facts
+theorem C10.find_window_as_modelled : type_of% C12.find_window_as_modelled := C12.find_window_as_modelled
+theorem C10.patch_freezes_result : type_of% C12.patch_freezes_result := C12.patch_freezes_result
